@@ -1,4 +1,5 @@
 import Tyme.Thm.C02
+import Tyme.Thm.C03
 import Tyme.Thm.C13
 /-!
 C02, second file — TOTALITY of the guess-and-walk conversion and the unconditional round trip.
@@ -72,6 +73,103 @@ theorem C02_roundtrip_real (Y M D : Int) (hv : Civil.valid Y M D = true)
   · exact key 9 22 t2 (by omega) (Or.inr (by omega)) (by omega)
   · exact key 25 235 t3 (by omega) (Or.inr (by omega)) (by omega)
   · exact key 240 9998 t5 (by omega) (Or.inr (by omega)) (by omega)
+
+/-- the civil date of a day number lying between two January firsts has its year between them -/
+theorem year_of_jdn (j ya yb : Int) (hya : 1 ≤ ya) (hab : ya ≤ yb) (hyb : yb ≤ 9998) (h1 : jdn ya 1 1 ≤ j) (h2 : j < jdn (yb + 1) 1 1) :
+    Civil.validT (ofJdn j) = true ∧ jdnT (ofJdn j) = j ∧ ya ≤ (ofJdn j).1 ∧ (ofJdn j).1 ≤ yb := by
+  have j1 : jdn 1 1 1 = 1721424 := by decide
+  have m1 := jan1_mono 1 ya (by omega) hya
+  have m2 := jan1_mono (yb + 1) 9999 (by omega) (by omega)
+  have j9 := jdn_9999
+  obtain ⟨hv, hj⟩ := C01_jdn_ofJdn j (by unfold jdnFirst; omega) (by omega)
+  refine ⟨hv, hj, ?_, ?_⟩
+  · obtain ⟨b1, b2⟩ := year_bounds _ _ _ hv
+    have hjj : jdn (ofJdn j).1 (ofJdn j).2.1 (ofJdn j).2.2 = j := hj
+    obtain ⟨hy1, _⟩ := (valid_iff _ _ _).1 hv
+    by_cases hc : ya ≤ (ofJdn j).1
+    · exact hc
+    · exfalso
+      have := jan1_mono ((ofJdn j).1 + 1) ya (by omega) (by omega)
+      omega
+  · obtain ⟨b1, b2⟩ := year_bounds _ _ _ hv
+    have hjj : jdn (ofJdn j).1 (ofJdn j).2.1 (ofJdn j).2.2 = j := hj
+    obtain ⟨hy1, _⟩ := (valid_iff _ _ _).1 hv
+    by_cases hc : (ofJdn j).1 ≤ yb
+    · exact hc
+    · exfalso
+      have := jan1_mono (yb + 1) (ofJdn j).1 (by omega) (by omega)
+      omega
+
+/-- TOTALITY + ROUND TRIP the other way, any ephemeris: every day k of every well-formed lunar month x of a lunar year
+at least two inside a tiling interval HAS a civil date (`get_solar_day` returns), that date lies in the civil years
+x.y−1 .. x.y+1, and converting it back returns exactly (x, k). -/
+theorem C02_lsl_total (E : Eph) (hl : ∀ y, E.leap y ≤ 12) (nf : NewYearFacts E) (hF1 : 1721424 ≤ E.mFirst 1 0)
+    (a b : Int) (ha0 : 0 ≤ a) (hb9 : b + 1 ≤ 9999) (ht : TilesOn E a b)
+    (x : Month) (k : Int) (hx : WF E x) (hxa : a + 2 ≤ x.y) (hxb : x.y + 2 ≤ b) (hk1 : 1 ≤ k) (hk2 : k ≤ len E x) :
+    ∃ Y M D, daySolar E x k = some (Y, M, D) ∧ Civil.valid Y M D = true ∧ jdn Y M D = first E x + k - 1 ∧
+      x.y - 1 ≤ Y ∧ Y ≤ x.y + 1 ∧ ofSolar E Y M D = some (x, k) := by
+  obtain ⟨m1, m2⟩ := month_in_year E a b hb9 ht x hx (by omega) (by omega)
+  have w0 := nf.win x.y.toNat (by omega) (by omega)
+  have w1 := (nf.win (x.y + 1).toNat (by omega) (by omega)).2
+  have e0 : ((x.y.toNat : Nat) : Int) = x.y := by omega
+  have e1 : (((x.y + 1).toNat : Nat) : Int) = x.y + 1 := by omega
+  rw [e0] at w0
+  rw [e1] at w1
+  have s0 := jan1_step (x.y - 1) (by omega)
+  have s1 := jan1_step (x.y + 1) (by omega)
+  have e2 : x.y - 1 + 1 = x.y := by omega
+  rw [e2] at s0
+  obtain ⟨v, ej, y1, y2⟩ := year_of_jdn (first E x + k - 1) (x.y - 1) (x.y + 1) (by omega) (by omega) (by omega) (by omega) (by omega)
+  generalize hd : ofJdn (first E x + k - 1) = d at *
+  obtain ⟨Y, M, D⟩ := d
+  have hv : Civil.valid Y M D = true := v
+  have hj : jdn Y M D = first E x + k - 1 := ej
+  have hds : daySolar E x k = some (Y, M, D) := by
+    unfold daySolar
+    rw [hd]
+    dsimp only
+    rw [C01_accept_iff, hv]; rfl
+  obtain ⟨r, hr, _⟩ := C02_roundtrip_total E hl nf hF1 a b ha0 hb9 ht Y M D hv (Or.inr (by dsimp only at y1; omega)) (by dsimp only at y2; omega)
+  have j1 : jdn 1 1 1 = 1721424 := by decide
+  have mm := jan1_mono 1 (x.y - 1) (by omega) (by omega)
+  have m9 := jan1_mono (x.y + 1 + 1) 9999 (by omega) (by omega)
+  have j9 := jdn_9999
+  have := C02_lsl E hl a b ha0 hb9 ht x k hx (by omega) (by omega) hk1 hk2 Y M D hds (by dsimp only at y1; omega) (by dsimp only at y2; omega)
+    (by unfold jdnFirst; omega) (by omega) r hr
+  rw [this] at hr
+  exact ⟨Y, M, D, hds, hv, hj, y1, y2, hr⟩
+
+/-- …for the data re-extracted from /repo: every day of every lunar month of the lunar years 2..5, 11..20, 27..233,
+242..9996 converts to a civil date and back to itself. -/
+theorem C02_lsl_total_real (x : Month) (k : Int) (hx : WF realEph x) (hk1 : 1 ≤ k) (hk2 : k ≤ len realEph x)
+    (hy : (2 ≤ x.y ∧ x.y ≤ 5) ∨ (11 ≤ x.y ∧ x.y ≤ 20) ∨ (27 ≤ x.y ∧ x.y ≤ 233) ∨ (242 ≤ x.y ∧ x.y ≤ 9996)) :
+    ∃ Y M D, daySolar realEph x k = some (Y, M, D) ∧ Civil.valid Y M D = true ∧ jdn Y M D = first realEph x + k - 1 ∧
+      ofSolar realEph Y M D = some (x, k) := by
+  obtain ⟨t1, t2, t3, _, t5⟩ := C02_good_intervals
+  have key := fun (a b : Nat) (ht : TilesOn realEph (a : Int) (b : Int)) (hb9 : (b : Int) + 1 ≤ 9999)
+      (h1 : (a : Int) + 2 ≤ x.y) (h2 : x.y + 2 ≤ (b : Int)) =>
+    C02_lsl_total realEph realEph_leap_le C13_newYearFacts_real C02_first_year_real (a : Int) (b : Int)
+      (Int.natCast_nonneg a) hb9 ht x k hx h1 h2 hk1 hk2
+  rcases hy with hy | hy | hy | hy
+  · obtain ⟨Y, M, D, q1, q2, q3, _, _, q6⟩ := key 0 7 t1 (by omega) (by omega) (by omega); exact ⟨Y, M, D, q1, q2, q3, q6⟩
+  · obtain ⟨Y, M, D, q1, q2, q3, _, _, q6⟩ := key 9 22 t2 (by omega) (by omega) (by omega); exact ⟨Y, M, D, q1, q2, q3, q6⟩
+  · obtain ⟨Y, M, D, q1, q2, q3, _, _, q6⟩ := key 25 235 t3 (by omega) (by omega) (by omega); exact ⟨Y, M, D, q1, q2, q3, q6⟩
+  · obtain ⟨Y, M, D, q1, q2, q3, _, _, q6⟩ := key 240 9998 t5 (by omega) (by omega) (by omega); exact ⟨Y, M, D, q1, q2, q3, q6⟩
+
+/-- C03, totality of single steps: every well-formed lunar month except the very last one (9999-12) has a successor and
+every one except the very first (0-1) a predecessor, exactly one place away on the listing — any ephemeris with leap ≤ 12. -/
+theorem C03_step_total (E : Eph) (hl : ∀ y, E.leap y ≤ 12) (x : Month) (hx : WF E x) :
+    ((x.idx + 1 < E.cnt x.y ∨ x.y + 1 ≤ 9999) → ∃ x', next E x 1 = some x' ∧ WF E x' ∧ gpos E x' = gpos E x + 1) ∧
+    (¬ (x.y = 0 ∧ x.idx = 0) → ∃ x', next E x (-1) = some x' ∧ WF E x' ∧ gpos E x' = gpos E x + -1) := by
+  constructor
+  · intro h
+    obtain ⟨x', h'⟩ := next_fwd_some E hl x hx h
+    obtain ⟨w, p⟩ := C03_next_pos E hl x x' hx 1 h'
+    exact ⟨x', h', w, p⟩
+  · intro h
+    obtain ⟨x', h'⟩ := next_back_some E hl x hx h
+    obtain ⟨w, p⟩ := C03_next_pos E hl x x' hx (-1) h'
+    exact ⟨x', h', w, p⟩
 
 /-- non-vacuity: a concrete date meets the hypotheses -/
 example : Civil.valid 2024 2 10 = true ∧ (241 ≤ (2024 : Int) ∧ (2024 : Int) ≤ 9997) := by decide
